@@ -9,7 +9,8 @@ PROP = {'n_quick': 60,
          'inputs; explicit/confidential/null outputs; range and surjection proofs) with, per transaction, every input index (and one beyond the inputs, and '
          'indices >= outputs for SINGLE), a full sweep of all 6 ECDSA types for legacy and segwit-v0 and all 7 Schnorr types (+ Reserved) at one index and a '
          'random third of them at the others (thorough: full product), taproot via taproot_sighash / key-spend / script-spend with key or script path, annex '
-         '(valid, empty, wrong prefix), code-separator positions, Prevouts::All / One(own) / One(foreign output), spent lists of the wrong length; every query '
+         '(valid, empty, wrong prefix), code-separator positions, Prevouts::All / One(own) / One(foreign output), spent lists of the wrong length, stray issuance range proofs on inputs without an issuance, leaf hashes computed by the '
+         'library from scripts of 0..65536 bytes (compact-size boundaries); every query '
          'on a fresh cache, digest AND pre-image writer. distinct = (transaction, spent, query list); non-trivial = >= 2 inputs or a pegin/issuance/'
          'confidential field',
  'trusted': ['the SPECIFICATION (coq/Model/SighashSpec.v) is a hand transcription of Elements consensus (SignatureHash BASE/WITNESS_V0, '
